@@ -559,6 +559,9 @@ class DynDiGraph(nx.DiGraph):
             if t[1] <= max_end:
                 # the span is already covered by the latest run
                 appeared = range(0)
+                if e is not None and t[1] == max_end and self.edge_removal:
+                    # ... and it ends with it: the run is closed at e
+                    self.__log_event(e, u, v, "-")
 
             elif t[0] <= max_end + 1:
                 # the span overlaps or touches the latest run: extend it
